@@ -150,12 +150,18 @@ def _render(e, style):
         for a in e[1:]:
             t = _render(a, style)
             parts.append(f'({po}{t}{pc})' if a[0] == ':' else t)
+        if sp == 'tight':
+            # no blank where a parenthesis already separates the operands: (1:2)-3, 3(1:2), (1:2)(3:4), (1:2)#4
+            out = parts[0]
+            for t in parts[1:]:
+                out += ('' if out.endswith(')') or t.startswith('(') else ' ') + t
+            return out
         return sp.join(parts)
     return un.join(_render(a, style) for a in e[1:])
 
 
 STYLES = [(' ', ':', '', '', ''), ('  ', ' : ', ' ', ' ', ' '), (' ', ': ', '', '', ' '), (' ', ' :', ' ', ' ', ''),
-          ('   ', ':', '  ', '', '')]
+          ('   ', ':', '  ', '', ''), ('tight', ':', '', '', '')]
 
 
 def _eval_spec(e, sense, cells):
@@ -189,7 +195,7 @@ LEAVES = [('s', 1), ('s', -2), ('s', 3), ('f', -4, 2), ('#', 7)]
 @contract(PG.get_ast, props=['C11'], name='parsegeom.get_ast', status='B')
 class _GetAst:
     """normalize() + grammar (stand-in parser, same grammar) + the real GeomSemantics on every well-formed expression
-    of the scope, in five spacing styles, against a reference evaluation written from the property statement (blank =
+    of the scope, in six spacing styles (one of them without blanks next to parentheses), against a reference evaluation written from the property statement (blank =
     intersection binds tighter than ':', parentheses, signed surfaces and facets, #n and #( ... )), for every
     assignment of senses to the surfaces and cells used."""
     scope = ('all expressions with <= 2 binary operators (thorough: 3) over 5 leaves (three signed surfaces, a signed '
@@ -239,7 +245,7 @@ EXPLANATION = {'C11': (
     'Proved by structural induction on the real code (all trees, all assignments): Surface.inverse, '
     'GeomExpression.inverse (De Morgan; precondition: binary, no cell-complement node), pot_complement (module c01: '
     '#n replaced by the inverse of cell n, complement-free binary result, same denotation). Bounded, exhaustive '
-    'within the stated scope: normalize() + grammar + GeomSemantics against a reference evaluator in five spacing '
+    'within the stated scope: normalize() + grammar + GeomSemantics against a reference evaluator in six spacing '
     'styles. The TatSu-generated parser itself cannot run in this sandbox and is replaced by harness/shim.py '
     '(recursive descent for the same grammar, driving the real GeomSemantics).')}
 ASSUMPTIONS = {'C11': [
